@@ -346,6 +346,9 @@ def verify_contract(cdef: ContractDef, tier="quick") -> dict:
                     if isinstance(g, bool):
                         g = z3.BoolVal(g)
                     obls.append(("post", label, s.pc, g, res))
+        if c.allowed_raises is not None and not any(k == "raises" for k, *_ in obls):
+            # every path was examined and none raises at all
+            obls.append(("raises", "raised-classes-within-declared-set", [], z3.BoolVal(True), None))
         for ob in eng.obligations:
             obls.append((ob.kind, ob.label, ob.pc, ob.goal, None))
         # covers (vacuity guards)
